@@ -1,3 +1,622 @@
 package main
 
-func c19(args []string) int { return 0 }
+// C19 - configuration survives dump and reload.
+//
+// FINDER (property itself on the implementation).  For every loadable sample configuration under /repo/configs and
+// /repo/examples and for documents generated from the configuration types (reflect filler over v2.MOSNConfig made
+// valid: one filter chain per listener, resolvable addresses, one TLS shape per chain, unique names; every field
+// set / absent / zero at random, durations, byte sizes, per-filter config with nested numbers, directory mode for
+// routers and clusters), the REAL pipeline is run twice:
+//     configmanager.Load(file) -> effective config (the setter calls pkg/mosn's initialisation makes: SetMosnConfig,
+//     ParseClusterConfig + SetClusterConfig + SetHosts, ParseListenerConfig + SetListenerConfig, deprecated
+//     connection_manager routers + server routers via SetRouter, SetExtend) -> transferConfig (the persisted file)
+//     -> Load(that file) -> ... -> transferConfig
+//   F1  the second dump equals the first as canonical JSON (name-keyed lists sorted)
+//   F2  load(dump(load j)) is equivalent to load j: both are normalised by the defaults the initialisation applies
+//       (cluster defaults, listener name, deprecated routers) and compared as canonical typed JSON - a field that
+//       the effective config drops, defaults differently or re-types shows up here
+// CORRESPONDENCE: model of encoding/json + hooks (Lib/GoJson.v) against the real Marshal on the loaded values.
+
+import (
+	"encoding/json"
+	"fmt"
+	"io/ioutil"
+	"net"
+	"os"
+	"path/filepath"
+	"reflect"
+	"sort"
+	"strings"
+	"time"
+
+	"github.com/ghodss/yaml"
+	v2 "mosn.io/mosn/pkg/config/v2"
+	"mosn.io/mosn/pkg/configmanager"
+	"mosn.io/mosn/pkg/log"
+
+	. "vh/vhlib"
+)
+
+// tryParse: would configmanager.Load accept the file?  (DefaultConfigLoad exits the process on an error.)
+func tryParse(path string) (*v2.MOSNConfig, string) {
+	content, err := ioutil.ReadFile(path)
+	if err != nil {
+		return nil, "unreadable"
+	}
+	if ext := filepath.Ext(path); ext == ".yaml" || ext == ".yml" {
+		content, err = yaml.YAMLToJSON(content)
+		if err != nil {
+			return nil, "yaml"
+		}
+	}
+	cfg := &v2.MOSNConfig{}
+	if err := json.Unmarshal(content, cfg); err != nil {
+		return nil, "unmarshal:" + firstWords(err.Error(), 6)
+	}
+	return cfg, ""
+}
+
+func firstWords(s string, n int) string {
+	w := strings.Fields(s)
+	if len(w) > n {
+		w = w[:n]
+	}
+	return strings.Join(w, " ")
+}
+
+// acceptable: the checks pkg/mosn makes (it exits on a violation)
+func acceptable(cfg *v2.MOSNConfig) string {
+	mode := cfg.Mode()
+	if mode == v2.Xds {
+		return "" // mosn installs a default server
+	}
+	if len(cfg.Servers) != 1 {
+		return fmt.Sprintf("servers=%d", len(cfg.Servers))
+	}
+	for _, l := range cfg.Servers[0].Listeners {
+		if len(l.FilterChains) != 1 {
+			return "filter_chains!=1"
+		}
+	}
+	for _, c := range cfg.ClusterManager.Clusters {
+		if c.Name == "" {
+			return "cluster-without-name"
+		}
+	}
+	return ""
+}
+
+// initEffective: the setter calls of pkg/mosn's initialisation (initClusterManager, initServer, HandleExtendConfig)
+func initEffective(cfg *v2.MOSNConfig) {
+	configmanager.SetMosnConfig(cfg)
+	if cfg.Mode() != v2.Xds {
+		clusters, clusterMap := configmanager.ParseClusterConfig(cfg.ClusterManager.Clusters)
+		for _, c := range clusters {
+			configmanager.SetClusterConfig(c)
+		}
+		for _, c := range clusters {
+			if hs, ok := clusterMap[c.Name]; ok {
+				configmanager.SetHosts(c.Name, hs)
+			}
+		}
+	}
+	if cfg.Mode() != v2.Xds && len(cfg.Servers) > 0 {
+		sc := &cfg.Servers[0]
+		for idx := range sc.Listeners {
+			lc := configmanager.ParseListenerConfig(&sc.Listeners[idx], nil, nil)
+			if lc.Name == "" {
+				lc.Name = lc.Addr.String()
+			}
+			configmanager.SetListenerConfig(*lc)
+			if dr, err := configmanager.ParseRouterConfiguration(&lc.FilterChains[0]); err == nil && dr.RouterConfigName != "" {
+				configmanager.SetRouter(*dr)
+			}
+		}
+		for _, rc := range sc.Routers {
+			if rc != nil && rc.RouterConfigName != "" {
+				configmanager.SetRouter(*rc)
+			}
+		}
+	}
+	for _, e := range cfg.Extends {
+		configmanager.SetExtend(e.Type, e.Config)
+	}
+}
+
+// normalised: canonical typed JSON of a loaded config after the defaults of the initialisation
+func normalised(cfg *v2.MOSNConfig) string {
+	c := *cfg
+	if c.Mode() != v2.Xds {
+		clusters, _ := configmanager.ParseClusterConfig(c.ClusterManager.Clusters)
+		byName := map[string]v2.Cluster{}
+		for _, cl := range clusters {
+			byName[cl.Name] = cl
+		}
+		c.ClusterManager.Clusters = nil
+		for _, cl := range byName {
+			c.ClusterManager.Clusters = append(c.ClusterManager.Clusters, cl)
+		}
+	}
+	if len(c.Servers) > 0 {
+		servers := make([]v2.ServerConfig, len(c.Servers))
+		copy(servers, c.Servers)
+		c.Servers = servers
+		sc := &c.Servers[0]
+		routers := map[string]*v2.RouterConfiguration{}
+		ls := map[string]v2.Listener{}
+		for _, l := range sc.Listeners {
+			if l.Name == "" && l.Addr != nil {
+				l.Name = l.Addr.String()
+			}
+			if len(l.FilterChains) > 0 {
+				if dr, err := configmanager.ParseRouterConfiguration(&l.FilterChains[0]); err == nil && dr.RouterConfigName != "" {
+					routers[dr.RouterConfigName] = dr
+				}
+			}
+			ls[l.Name] = l
+		}
+		for _, rc := range sc.Routers {
+			if rc != nil && rc.RouterConfigName != "" {
+				routers[rc.RouterConfigName] = rc
+			}
+		}
+		sc.Listeners = nil
+		for _, l := range ls {
+			sc.Listeners = append(sc.Listeners, l)
+		}
+		sc.Routers = nil
+		for _, r := range routers {
+			sc.Routers = append(sc.Routers, r)
+		}
+	}
+	b, err := json.Marshal(c)
+	if err != nil {
+		return "marshal-error:" + err.Error()
+	}
+	return canonJSON(b)
+}
+
+type rtResult struct {
+	Dump1, Dump2 []byte
+	Norm0, Norm1 string
+}
+
+// roundTrip runs load -> effective -> dump -> load -> effective -> dump on the real code, in dir.
+func roundTrip(path, dir string) (*rtResult, string) {
+	cfg0, why := tryParse(path)
+	if cfg0 == nil {
+		return nil, why
+	}
+	if why := acceptable(cfg0); why != "" {
+		return nil, "rejected-by-mosn:" + why
+	}
+	res := &rtResult{}
+	res.Norm0 = normalised(cfg0)
+	configmanager.Reset()
+	cfg := configmanager.Load(path)
+	initEffective(cfg)
+	d1, err := configmanager.VerifTransferConfig()
+	if err != nil {
+		return nil, "transfer1:" + firstWords(err.Error(), 6)
+	}
+	res.Dump1 = d1
+	p1 := filepath.Join(dir, "dump1.json")
+	ioutil.WriteFile(p1, d1, 0o644)
+	cfg1, why := tryParse(p1)
+	if cfg1 == nil {
+		return res, "dump-not-loadable:" + why
+	}
+	res.Norm1 = normalised(cfg1)
+	configmanager.Reset()
+	cfg = configmanager.Load(p1)
+	initEffective(cfg)
+	d2, err := configmanager.VerifTransferConfig()
+	if err != nil {
+		return res, "transfer2:" + firstWords(err.Error(), 6)
+	}
+	res.Dump2 = d2
+	return res, ""
+}
+
+// jsonDiff: first differing path between two canonical JSON documents
+func jsonDiff(a, b string) string {
+	var x, y interface{}
+	json.Unmarshal([]byte(a), &x)
+	json.Unmarshal([]byte(b), &y)
+	var rec func(p string, x, y interface{}) string
+	rec = func(p string, x, y interface{}) string {
+		switch xt := x.(type) {
+		case map[string]interface{}:
+			yt, ok := y.(map[string]interface{})
+			if !ok {
+				return p
+			}
+			keys := map[string]bool{}
+			for k := range xt {
+				keys[k] = true
+			}
+			for k := range yt {
+				keys[k] = true
+			}
+			var ks []string
+			for k := range keys {
+				ks = append(ks, k)
+			}
+			sort.Strings(ks)
+			for _, k := range ks {
+				xv, xo := xt[k]
+				yv, yo := yt[k]
+				if xo != yo {
+					return p + "." + k
+				}
+				if d := rec(p+"."+k, xv, yv); d != "" {
+					return d
+				}
+			}
+			return ""
+		case []interface{}:
+			yt, ok := y.([]interface{})
+			if !ok || len(xt) != len(yt) {
+				return p + "[]"
+			}
+			for i := range xt {
+				if d := rec(p+"[]", xt[i], yt[i]); d != "" {
+					return d
+				}
+			}
+			return ""
+		}
+		if !reflect.DeepEqual(x, y) {
+			return p
+		}
+		return ""
+	}
+	return rec("", x, y)
+}
+
+func sampleFiles(repo string) []string {
+	var out []string
+	for _, root := range []string{"configs", "examples"} {
+		filepath.Walk(filepath.Join(repo, root), func(p string, fi os.FileInfo, err error) error {
+			if err != nil || fi.IsDir() {
+				return nil
+			}
+			switch filepath.Ext(p) {
+			case ".json", ".yaml", ".yml":
+				out = append(out, p)
+			}
+			return nil
+		})
+	}
+	sort.Strings(out)
+	return out
+}
+
+// genConfig: a valid configuration document generated from the types
+func genConfig(f *filler, r *Rng, dir string, n int) []byte {
+	cfg := &v2.MOSNConfig{}
+	f.fill(reflect.ValueOf(cfg).Elem(), 0, "cfg")
+	// validity
+	cfg.Servers = cfg.Servers[:0]
+	sc := v2.ServerConfig{}
+	f.fill(reflect.ValueOf(&sc).Elem(), 1, "server")
+	if r.Bool() {
+		sc.Processor = float64(1 + r.Intn(4))
+	} else if r.Bool() {
+		sc.Processor = "auto"
+	} else {
+		sc.Processor = nil
+	}
+	for i := range sc.Listeners {
+		l := &sc.Listeners[i]
+		l.Addr = nil
+		l.InheritListener, l.InheritPacketConn = nil, nil
+		l.AddrConfig = fmt.Sprintf("127.0.0.1:%d", 20000+r.Intn(2000))
+		l.Network = []string{"", "tcp", "udp", "TCP"}[r.Intn(4)]
+		if r.Pct(70) {
+			l.Name = fmt.Sprintf("listener%d", r.Intn(3))
+		} else {
+			l.Name = ""
+		}
+		fc := v2.FilterChain{}
+		f.fill(reflect.ValueOf(&fc).Elem(), 3, "chain")
+		// one TLS shape per chain (tls_context XOR tls_context_set); MarshalJSON prints TLSContexts when non-empty
+		switch r.Intn(3) {
+		case 0:
+			fc.TLSContexts, fc.TLSConfigs = nil, nil
+		case 1:
+			fc.TLSConfig, fc.TLSConfigs = nil, nil
+			if len(fc.TLSContexts) == 0 {
+				fc.TLSContexts = []v2.TLSConfig{{Status: true, ServerName: "a"}}
+			}
+		default:
+			fc.TLSConfig, fc.TLSContexts, fc.TLSConfigs = nil, nil, nil
+		}
+		if r.Pct(25) { // the deprecated way of giving routes
+			fc.Filters = append(fc.Filters, v2.Filter{Type: v2.CONNECTION_MANAGER, Config: map[string]interface{}{
+				"router_config_name": fmt.Sprintf("router%d", r.Intn(3)),
+				"virtual_hosts":      []interface{}{map[string]interface{}{"name": "dvh", "domains": []interface{}{"*"}}},
+			}})
+		}
+		l.FilterChains = []v2.FilterChain{fc}
+	}
+	for i := range sc.Routers {
+		if sc.Routers[i] == nil {
+			sc.Routers[i] = &v2.RouterConfiguration{}
+		}
+		rc := sc.Routers[i]
+		rc.RouterConfigName = fmt.Sprintf("router%d", r.Intn(3))
+		rc.RouterConfigPath = ""
+		rc.StaticVirtualHosts = nil
+		if r.Pct(f.dirPct) && len(rc.VirtualHosts) > 0 {
+			rc.RouterConfigPath = filepath.Join(dir, fmt.Sprintf("routers_%d_%s", n, rc.RouterConfigName))
+			for vi := range rc.VirtualHosts {
+				rc.VirtualHosts[vi].Name = fmt.Sprintf("vh%d", vi)
+			}
+		}
+	}
+	cfg.Servers = append(cfg.Servers, sc)
+	cm := &cfg.ClusterManager
+	cm.ClustersJson = nil
+	cm.ClusterConfigPath = ""
+	for i := range cm.Clusters {
+		cm.Clusters[i].Name = fmt.Sprintf("cluster%d", r.Intn(4))
+	}
+	if r.Pct(f.dirPct) && len(cm.Clusters) > 0 {
+		cm.ClusterConfigPath = filepath.Join(dir, fmt.Sprintf("clusters_%d", n))
+		seen := map[string]bool{}
+		var cs []v2.Cluster
+		for _, c := range cm.Clusters {
+			if !seen[c.Name] {
+				seen[c.Name] = true
+				cs = append(cs, c)
+			}
+		}
+		cm.Clusters = cs
+	}
+	for i := range cfg.Extends {
+		cfg.Extends[i].Type = fmt.Sprintf("ext%d", i)
+		if len(cfg.Extends[i].Config) == 0 {
+			cfg.Extends[i].Config = json.RawMessage(`{}`)
+		}
+	}
+	// xDS resources are outside this property: keep File mode
+	cfg.RawDynamicResources, cfg.RawStaticResources = nil, nil
+	b, err := json.MarshalIndent(cfg, "", " ")
+	if err != nil {
+		return nil
+	}
+	return b
+}
+
+func c19(args []string) int {
+	run := NewRun("C19", args)
+	seedMix := NewRng(run.Seed)
+	r := NewRng(seedMix.U64() ^ (seedMix.U64() << 1) ^ 0xC19)
+	log.DefaultLogger.SetLogLevel(log.FATAL)
+	log.StartLogger.SetLogLevel(log.FATAL)
+	run.Sum.Rule = "documents: (a) every .json/.yaml/.yml under /repo/configs and /repo/examples that configmanager.Load and pkg/mosn's checks accept (the others are counted by reason); (b) documents generated from the configuration types: reflect-random v2.MOSNConfig made valid (one server, one filter chain per listener with one of the three TLS shapes, resolvable addresses, tcp/udp/upper-case/absent network, named and unnamed listeners, duplicate names, deprecated connection_manager routes, directory-mode routers/clusters in a scratch directory, durations, byte sizes, per-filter config with nested numbers, extension configs), marshalled with the real marshalers. Each document goes through load -> effective config -> transferConfig -> load -> effective config -> transferConfig on the real code. A case is non-trivial when the document has at least one listener, cluster or router; distinct by document hash."
+	tmp := filepath.Join(run.Out, "c19dir")
+	os.MkdirAll(tmp, 0o755)
+	configmanager.VerifSetAutoWrite(false)
+
+	check := func(kind, name, path string, replay interface{}) {
+		dir := filepath.Join(tmp, fmt.Sprintf("rt%d", run.Sum.Evaluations))
+		os.MkdirAll(dir, 0o755)
+		res, why := roundTrip(path, dir)
+		if res == nil {
+			run.Sum.Distribution["skipped:"+kind+":"+strings.SplitN(why, ":", 2)[0]]++
+			if kind == "sample" {
+				if run.Sum.Extra["not_loadable"] == nil {
+					run.Sum.Extra["not_loadable"] = map[string]string{}
+				}
+				run.Sum.Extra["not_loadable"].(map[string]string)[name] = why
+			}
+			return
+		}
+		doc, _ := ioutil.ReadFile(path)
+		nontrivial := strings.Contains(string(res.Dump1), `"listeners"`) || strings.Contains(string(res.Dump1), `"clusters"`) || strings.Contains(string(res.Dump1), `"routers"`)
+		run.Count(fmt.Sprintf("%x", doc), nontrivial, "doc:"+kind)
+		if why != "" {
+			run.Fail("roundtrip-broken:"+strings.SplitN(why, ":", 2)[0], fmt.Sprintf("%s %s: %s", kind, name, why), replay)
+			return
+		}
+		c1, c2 := canonJSON(res.Dump1), canonJSON(res.Dump2)
+		if c1 != c2 {
+			d := jsonDiff(c1, c2)
+			run.Fail("second-dump-differs:"+pathClass(d), fmt.Sprintf("%s %s: dump(load(dump(load j))) differs from dump(load j) at %s", kind, name, d), replay)
+		}
+		if res.Norm0 != res.Norm1 {
+			d := jsonDiff(res.Norm0, res.Norm1)
+			if cfg0, _ := tryParse(path); cfg0 != nil && cfg0.Mode() == v2.Xds && d == ".servers" {
+				d = "xds-mode:.servers"
+			}
+			run.Fail("reload-not-equivalent:"+pathClass(d), fmt.Sprintf("%s %s: load(dump(load j)) is not equivalent to load j at %s", kind, name, d), replay)
+		}
+		if run.Sum.Evaluations <= 3 {
+			run.Sample(map[string]interface{}{"kind": kind, "name": name, "dump_bytes": len(res.Dump1)})
+		}
+	}
+
+	for _, p := range sampleFiles("/repo") {
+		rel, _ := filepath.Rel("/repo", p)
+		// directory-mode samples would write into /repo: run them from a scratch copy of their directory
+		check("sample", rel, p, map[string]interface{}{"file": rel})
+	}
+	nGen := run.N(120, 2500)
+	for i := 0; i < nGen; i++ {
+		f := &filler{r: r, maxDepth: 9, tmp: tmp, dirPct: 20, noTLS: false}
+		b := genConfig(f, r, tmp, i)
+		if b == nil {
+			run.Sum.Distribution["gen:marshal-error"]++
+			continue
+		}
+		p := filepath.Join(tmp, fmt.Sprintf("gen%d.json", i))
+		ioutil.WriteFile(p, b, 0o644)
+		check("generated", fmt.Sprintf("gen%d", i), p, map[string]interface{}{"seed": run.Seed, "index": i, "document": json.RawMessage(b)})
+	}
+	// ---------------- correspondence: the model of Marshal / Unmarshal against encoding/json on the real types
+	g := walkTypes("/repo")
+	custom := map[reflect.Type]bool{}
+	for _, st := range g.structs {
+		if st.Hook == "HkCustom" {
+			custom[st.T] = true
+		}
+	}
+	header := "From Coq Require Import List String Bool ZArith NArith Ascii.\nFrom MV Require Import Lib.GoJson Gen.CfgTypes Model.ConfigRT.\nImport ListNotations.\nOpen Scope string_scope.\n"
+	var sh *Shard
+	newShard := func() { sh = run.NewShard(header, "rt_case", "c19_mismatches") }
+	newShard()
+	add := func(term string, descr interface{}) {
+		sh.Add(term, descr)
+		if sh.Len() >= 25 {
+			sh.Close()
+			newShard()
+		}
+	}
+	// (a) Marshal of whole loaded configurations (all hooks on the way)
+	encDocs := 0
+	encOne := func(name, path string) {
+		cfg, why := tryParse(path)
+		if cfg == nil || why != "" || acceptable(cfg) != "" {
+			return
+		}
+		// keep directory-mode marshalers from writing next to the samples
+		if cfg.ClusterManager.ClusterConfigPath != "" {
+			return
+		}
+		for _, sc := range cfg.Servers {
+			for _, rc := range sc.Routers {
+				if rc != nil && rc.RouterConfigPath != "" {
+					return
+				}
+			}
+		}
+		b, err := json.Marshal(cfg)
+		if err != nil {
+			return
+		}
+		j, err := jsonToCoq(b)
+		if err != nil {
+			return
+		}
+		pr := newVPrinter(false)
+		pr.custom = custom
+		add(fmt.Sprintf("(EncCase (TNamed \"v2.MOSNConfig\", %s, %s))", pr.val(reflect.ValueOf(cfg).Elem()), j), map[string]interface{}{"kind": "encode", "doc": name})
+		encDocs++
+		run.Sum.Distribution["model:encode-doc"]++
+	}
+	for _, p := range sampleFiles("/repo") {
+		rel, _ := filepath.Rel("/repo", p)
+		encOne(rel, p)
+	}
+	for i := 0; i < run.N(30, 300) && i < nGen; i++ {
+		encOne(fmt.Sprintf("gen%d", i), filepath.Join(tmp, fmt.Sprintf("gen%d.json", i)))
+	}
+	// (b) Unmarshal on every struct type of the graph whose closure is hook-free (the fragment of c19_roundtrip)
+	pure := map[reflect.Type]bool{}
+	var isPure func(t reflect.Type, seen map[reflect.Type]bool) bool
+	isPure = func(t reflect.Type, seen map[reflect.Type]bool) bool {
+		switch t.Kind() {
+		case reflect.Ptr:
+			switch t.Elem().Kind() {
+			case reflect.Ptr, reflect.Slice, reflect.Map, reflect.Interface:
+				return false
+			}
+			return isPure(t.Elem(), seen)
+		case reflect.Slice, reflect.Array, reflect.Map:
+			if t == rawMessageT {
+				return true
+			}
+			if t.Kind() == reflect.Map && t.Key().Kind() != reflect.String {
+				return false
+			}
+			if t.Elem().Kind() == reflect.Uint8 {
+				return false
+			}
+			return isPure(t.Elem(), seen)
+		case reflect.Interface:
+			return t.NumMethod() == 0
+		case reflect.Struct:
+			if isOpaqueNamed(t) {
+				return true
+			}
+			st, ok := g.byType[t]
+			if !ok || st.Hook != "HkNone" || st.Unhook != "UkNone" {
+				return false
+			}
+			if seen[t] {
+				return true
+			}
+			seen[t] = true
+			for _, f := range st.Fields {
+				if f.Skip {
+					if f.T.Kind() == reflect.Interface && f.T.NumMethod() > 0 {
+						return false
+					}
+					continue
+				}
+				if f.Embed || !isPure(f.T, seen) {
+					return false
+				}
+			}
+			return true
+		case reflect.Func, reflect.Chan, reflect.UnsafePointer:
+			return false
+		}
+		return true
+	}
+	var pureTypes []*gstruct
+	for _, st := range g.structs {
+		if isPure(st.T, map[reflect.Type]bool{}) && !isOpaqueNamed(st.T) {
+			pure[st.T] = true
+			pureTypes = append(pureTypes, st)
+		}
+	}
+	run.Sum.Extra["plain_fragment_types"] = len(pureTypes)
+	run.Sum.Extra["graph_structs"] = len(g.structs)
+	for _, st := range pureTypes {
+		for k := 0; k < run.N(2, 12); k++ {
+			f := &filler{r: r, maxDepth: 6, noTLS: true}
+			v := reflect.New(st.T)
+			f.fill(v.Elem(), 0, st.Name)
+			b, err := json.Marshal(v.Interface())
+			if err != nil {
+				continue
+			}
+			back := reflect.New(st.T)
+			if err := json.Unmarshal(b, back.Interface()); err != nil {
+				run.Sum.Distribution["model:decode-real-unmarshal-error"]++
+				continue
+			}
+			j, err := jsonToCoq(b)
+			if err != nil {
+				continue
+			}
+			pr := newVPrinter(false)
+			add(fmt.Sprintf("(DecCase (TNamed %s, %s, %s))", coqStr(st.Name), j, pr.val(back.Elem())), map[string]interface{}{"kind": "decode", "type": st.Name, "doc": string(b)})
+			run.Sum.Distribution["model:decode-case"]++
+			// the real second dump equals the first (the property on the fragment, on the real encoder)
+			b2, _ := json.Marshal(back.Interface())
+			if string(b2) != string(b) {
+				run.Fail("json-fragment-unstable:"+st.Name, "Marshal(Unmarshal(Marshal(v))) differs from Marshal(v) for a hook-free type", map[string]interface{}{"type": st.Name, "doc": string(b), "second": string(b2)})
+			}
+		}
+	}
+	// (c) the duration coder law used by the hook pairs: ParseDuration(String(d)) = d
+	durs := []time.Duration{0, 1, 999, 1000, 1500, time.Millisecond, 1500 * time.Microsecond, time.Second, 1500 * time.Millisecond, time.Minute, 90 * time.Second, time.Hour, 1<<63 - 1, -1500 * time.Millisecond}
+	for i := 0; i < run.N(200, 5000); i++ {
+		durs = append(durs, time.Duration(r.U64()>>uint(r.Intn(64))))
+	}
+	for _, d := range durs {
+		back, err := time.ParseDuration(d.String())
+		if err != nil || back != d {
+			run.Fail("duration-coder-law", fmt.Sprintf("ParseDuration(String(%d)) = %d, %v", int64(d), int64(back), err), map[string]interface{}{"nanos": int64(d)})
+		}
+	}
+	run.Sum.Distribution["coder:duration-checked"] = len(durs)
+	sh.Close()
+	return run.Finish()
+}
+
+var _ = net.IPv4
